@@ -447,10 +447,10 @@ func (db *SpecDB) loadContractFile(path, pkgPath string) error {
 		case "ghost":
 			// ghost name sort
 			f := strings.Fields(rest)
-			if len(f) != 2 {
+			if len(f) < 2 {
 				return fmt.Errorf("%s:%d: ghost NAME SORT", path, ln+1)
 			}
-			db.ghosts[f[0]] = specSort(f[1])
+			db.ghosts[f[0]] = specSort(strings.Join(f[1:], " "))
 		case "guarded":
 			// guarded Type.field by mutexField
 			f := strings.Fields(rest)
@@ -516,6 +516,9 @@ func specSort(t string) Sort {
 	case "slice":
 		return SSlice
 	}
+	if strings.HasPrefix(t, "(") {
+		return Sort(t) // raw SMT sort, e.g. (Array String String)
+	}
 	return SInt
 }
 
@@ -530,7 +533,7 @@ func (db *SpecDB) loadAll(repo, verif string, pkgDirs map[string]string) error {
 	}
 	for pkgPath, dir := range pkgDirs {
 		f := filepath.Join(dir, "zz_contracts_verif.go")
-		if _, err := os.Stat(f); err != nil {
+		if _, err := os.Stat(f); err != nil || os.Getenv("GCV_PREFER_MIRROR") != "" {
 			rel := strings.TrimPrefix(dir, repo)
 			m := filepath.Join(verif, "contracts", "repo", rel, "zz_contracts_verif.go")
 			if _, err2 := os.Stat(m); err2 != nil {
